@@ -67,6 +67,26 @@ for d in sorted(glob.glob(f'{ROOT}/seeded/C*-*')):
     sigs=' '.join(sorted(set(re.findall(r'sig=(\S+)',r[2]))))[:160]
     what=(meta.get('breaks','')+' — needs: '+meta.get('needs_to_manifest',''))[:260].replace('|','/')
     out.append(f"| {name} | {name.split('-')[0]} | {what} | {meta.get('confirmed','?')} | {r[0]} quick: {r[1]} | {sigs} |")
+out.append('')
+out.append('### 9.6 Thorough-tier and multi-seed runs on the unchanged tree (logs/thorough-summary.txt, logs/seeds-summary.txt; rc 124 = killed by the 100 min cap of the campaign script while the machine was shared with ~10 other jobs, not a verdict)\n')
+out.append('| run | exit | wall | summary |')
+out.append('|---|---|---|---|')
+tf=f'{ROOT}/logs/thorough-summary.txt'
+if os.path.exists(tf):
+    for l in open(tf):
+        m=re.match(r'(C\d+) thorough rc=(\d+) (\d+)s ?(.*)',l.strip())
+        if m: out.append(f"| {m.group(1)} thorough | {m.group(2)} | {m.group(3)} s | {m.group(4)[:150]} |")
+sf=f'{ROOT}/logs/seeds-summary.txt'
+if os.path.exists(sf):
+    agg={}
+    for l in open(sf):
+        m=re.match(r'(C\d+) seed=(\d+) rc=(\d+) (\d+)s',l)
+        if m: agg.setdefault(m.group(1),[]).append((m.group(2),m.group(3),m.group(4)))
+    out.append('')
+    out.append('| quick, other seeds | seeds run (exit code, seconds) |')
+    out.append('|---|---|')
+    for k in sorted(agg):
+        out.append(f"| {k} | "+', '.join(f'seed {a}: rc={b} {c}s' for a,b,c in agg[k])+' |')
 txt='\n'.join(out)
 s=open(f'{ROOT}/DESIGN.md').read()
 a='<!-- AUTOGEN-BEGIN -->'; b='<!-- AUTOGEN-END -->'
